@@ -198,12 +198,21 @@ def t_custom_fatal():
             draw(g("SliceOf", elem=g("Byte")), "tail")]
 
 
+def t_cleanup_fatal():
+    # two ways to fail: fatally from a cleanup function (big inputs), and non-fatally in the body (almost every input).  The failure found first is
+    # almost always the fatal one; minimization must stay with it
+    return [draw(g("Int16"), "x", "x"), draw(g("SliceOf", elem=g("Byte")), "s"),
+            op("cleanup", body=[iff("x", "ge", 500, [op("fatalf", site=2)])]),
+            op("cleanup", body=[op("ctx")]),
+            iff("x", "ge", 3, [op("errorf", text="small")])]
+
+
 def t_filter_panics():
     return [draw(g("Int8"), "p"), draw(g("Filter", elem=IntRange(0, 1000), pred="boom"), "f"), draw(g("SliceOf", elem=g("Byte")), "tail")]
 
 
 TEMPLATES = {
-    "custom_fatal": t_custom_fatal, "filter_panics": t_filter_panics,
+    "custom_fatal": t_custom_fatal, "filter_panics": t_filter_panics, "cleanup_fatal": t_cleanup_fatal,
     "custom_hard": t_custom_hard,
     "makemap": t_makemap, "custom_empty": t_custom_empty, "sm2": t_sm2, "cleanup_skip_errorf": t_cleanup_skip_errorf, "regexp_retry": t_regexp_retry,
     "ctx": t_ctx,
@@ -539,6 +548,10 @@ def c07(tier, seed):
         out.append(scenario("c07-rand-%s-%d" % (tn, i), {"body": TEMPLATES[tn]()},
                             {"checks": 100, "seed": 0, "nofailfile": "true", "shrinktime": rng.choice(["0s", "30s"])},
                             runs=[{}, {"seedPrev": True, "expect": "seed_prev"}], tag={"template": tn}))
+    # (b') a property that obtains its context in a cleanup function and relies on a live context while it runs
+    for sd in seeds(rng, 2 if tier == "quick" else 20):
+        out.append(scenario("c07-ctx-%d" % sd, {"body": t_ctx()}, {"checks": 100, "seed": sd, "nofailfile": "true", "shrinktime": "0s"},
+                            runs=[{}, {"seedPrev": True, "expect": "seed_prev"}], tag={"template": "ctx"}))
     # (c) same fixed seed twice (same process), with unrelated activity in between: identical runs
     for sd in seeds(rng, n):
         tn = rng.choice(sorted(TEMPLATES))
@@ -556,6 +569,11 @@ def c07(tier, seed):
         tn = rng.choice(["threshold", "distinct", "map", "multisite"])
         out.append(scenario("c07-ffseed-%s-%d" % (tn, sd), {"body": TEMPLATES[tn]()}, {"checks": 100, "seed": sd},
                             runs=[{}, {"flags": {"seed": "0"}}, {"seedPrev": True, "expect": "seed_prev", "flags": {"seed": "0"}}], tag={"template": tn, "ffseed": True}))
+    # (f) a test function made by MakeCheck before the flags were set (package-level table of sub-tests) and run afterwards: -rapid.seed still fixes the run
+    for sd in seeds(rng, 3 if tier == "quick" else 30):
+        body = [draw(g("Int64"), "x"), draw(g("SliceOfN", elem=g("Byte"), minLen=0, maxLen=4), "s")]
+        out.append(scenario("c07-mkearly-%d" % sd, {"body": body}, {"checks": 10, "seed": sd, "nofailfile": "true"}, entry="makecheck_early",
+                            runs=[{}, {"expect": "same_run"}, {"entry": "check", "expect": "same_run"}], name="TestMkEarly", tag={"template": "passing", "entry": "makecheck_early"}))
     # (d) the same fixed seed in a new process: identical run
     for sd in seeds(rng, max(3, n // 2)):
         tn = rng.choice(sorted(TEMPLATES))
@@ -573,10 +591,10 @@ def c05(tier, seed):
     out = []
     n = 12 if tier == "quick" else 300
     tmpl = ["multisite", "errorf_then_panic", "threshold", "distinct", "map", "filter", "sm", "string", "custom", "sampled", "nonfatal",
-            "makemap", "custom_empty", "regexp_retry", "sm2", "cleanup_skip_errorf", "custom_hard", "custom_fatal", "filter_panics"]
+            "makemap", "custom_empty", "regexp_retry", "sm2", "cleanup_skip_errorf", "custom_hard", "custom_fatal", "filter_panics", "cleanup_fatal"]
     for i in range(n):
         for tn in tmpl:
-            if tier == "quick" and i >= 4 and tn not in ("multisite", "errorf_then_panic", "distinct", "makemap", "custom_empty", "custom_hard"):
+            if tier == "quick" and i >= 4 and tn not in ("multisite", "errorf_then_panic", "distinct", "makemap", "custom_empty", "custom_hard", "cleanup_fatal"):
                 continue
             prop = {"body": TEMPLATES[tn]()}
             st = rng.choice(["0s", "full", "full", "cut"])
